@@ -20,6 +20,9 @@ pub struct Profile {
     pub retain_panic: bool,
     pub obs_every: usize,
     pub tree_every: usize,
+    /// log only the observation-relative lines (after every call); the calls themselves are the
+    /// same as without this flag for the same seed
+    pub obs_only: bool,
 }
 
 impl Profile {
@@ -34,7 +37,13 @@ impl Profile {
             retain_panic: false,
             obs_every: 25,
             tree_every: 5,
+            obs_only: false,
         };
+        let (name, obs_only) = match name.strip_suffix("+obs") {
+            Some(n) => (n, true),
+            None => (name, false),
+        };
+        let base = Profile { obs_only, ..base };
         match name {
             "core" => Profile { entry: false, writes: false, views: false, ..base },
             "pairs" => Profile { pairs: true, entry: false, writes: false, views: false, obs_every: 60, ..base },
@@ -212,28 +221,50 @@ fn log_line(out: &mut dyn Write, ev: &Value, o: &Outcome, snap: Option<Value>, t
     writeln!(out, "{}", serde_json::to_string(&line).unwrap()).unwrap();
 }
 
-fn obs_event<P: PT>(g: &mut Gen, ctx: &Ctx, m: &PrefixMap<P, i32>) -> Value {
+/// An observation-relative line: E = the contents found by an exact-match sweep over `universe`
+/// (get_key_value), iter = what iteration yields; every other observer is judged against E.
+pub fn obs_event_over<P: PT>(
+    ctx: &Ctx,
+    m: &PrefixMap<P, i32>,
+    universe: &[Vec<u8>],
+    queries: &[Value],
+) -> Value {
     let es: Vec<(P, i32)> = Coll::<P>::entries(m);
-    let e_json: Vec<Value> = es
-        .iter()
-        .map(|(p, v)| {
+    let mut e_json: Vec<Value> = vec![];
+    for n in universe {
+        let q: P = ctx.dec(&json!({"n": ctx.enc_n(n), "h": "0"}));
+        if let Some((p, v)) = m.get_key_value(&q) {
             let j = ctx.enc(p);
-            json!({"n": j["n"], "h": j["h"], "v": v})
-        })
-        .collect();
+            e_json.push(json!({"n": j["n"], "h": j["h"], "v": v}));
+        }
+    }
     let iter_json: Vec<Value> = es.iter().map(|(p, v)| json!({"p": ctx.enc(p), "v": v})).collect();
     let mut qs = vec![];
+    for qj in queries {
+        let q: P = ctx.dec(qj);
+        qs.push(query_record(ctx, m, qj, &q));
+    }
+    json!({"a": "Obs", "E": e_json, "iter": iter_json, "len": m.len(), "empty": m.is_empty(), "qs": qs})
+}
+
+fn obs_event<P: PT>(g: &mut Gen, ctx: &Ctx, m: &PrefixMap<P, i32>) -> Value {
     let nq = g.queries.len().min(14);
-    for _ in 0..nq {
-        let qj = g.query();
-        let q: P = ctx.dec(&qj);
+    let queries: Vec<Value> = (0..nq).map(|_| g.query()).collect();
+    let universe = g.queries.clone();
+    obs_event_over(ctx, m, &universe, &queries)
+}
+
+fn query_record<P: PT>(ctx: &Ctx, m: &PrefixMap<P, i32>, qj: &Value, q: &P) -> Value {
+    let qj = qj.clone();
+    let q = q.clone();
+    {
         let lpm = m.get_lpm(&q).map(|(p, v)| (p.clone(), *v));
         let lpm_p = m.get_lpm_prefix(&q).cloned();
         let spm = m.get_spm(&q).map(|(p, v)| (p.clone(), *v));
         let spm_p = m.get_spm_prefix(&q).cloned();
         let cover = Coll::<P>::cover(m, &q, 2);
-        let ck: Vec<P> = m.cover_keys(&q).cloned().collect();
-        let cv: Vec<i32> = m.cover_values(&q).copied().collect();
+        let ck: Vec<P> = m.cover_keys(&q).take(4096).cloned().collect();
+        let cv: Vec<i32> = m.cover_values(&q).take(4096).copied().collect();
         let mut rec = json!({
             "q": qj,
             "get": opt(m.get(&q).copied()),
@@ -251,15 +282,15 @@ fn obs_event<P: PT>(g: &mut Gen, ctx: &Ctx, m: &PrefixMap<P, i32>) -> Value {
         {
             rec["lpm"] = json!(["VARIANTS-DIFFER"]);
         }
-        qs.push(rec);
+        rec
     }
-    json!({"a": "Obs", "E": e_json, "iter": iter_json, "len": m.len(), "empty": m.is_empty(), "qs": qs})
 }
 
 /// run `runs` histories of `events` calls each and write them to `out`
 pub fn drive<P: PT>(seed: u64, runs: usize, events: usize, prof: &Profile, out: &mut dyn Write) -> Value {
     let ctx = Ctx::plain(P::TW);
     let mut rng = StdRng::seed_from_u64(seed);
+    let mut rng2 = StdRng::seed_from_u64(seed ^ 0x5eed);
     let mut total = 0u64;
     let mut per_action: std::collections::BTreeMap<String, u64> = Default::default();
     let mut max_entries = 0usize;
@@ -277,7 +308,11 @@ pub fn drive<P: PT>(seed: u64, runs: usize, events: usize, prof: &Profile, out: 
                 break;
             }
             if prof.obs_every > 0 && i % prof.obs_every == prof.obs_every - 1 {
-                let e = obs_event(&mut g, &ctx, &a);
+                watch_begin(&json!({"a": "Obs"}));
+                let mut e = obs_event(&mut g, &ctx, &a);
+                if prof.obs_only {
+                    e["nolen"] = json!(true);
+                }
                 writeln!(out, "{}", serde_json::to_string(&e).unwrap()).unwrap();
                 total += 1;
                 *per_action.entry("Obs".into()).or_default() += 1;
@@ -366,7 +401,9 @@ pub fn drive<P: PT>(seed: u64, runs: usize, events: usize, prof: &Profile, out: 
                     let qb: P = ctx.dec(&ev["qb"]);
                     guarded(|| a.pair_op(&mut b, &ctx, &name, &qa, &qb))
                 };
-                log_line(out, &ev, &o, None, None);
+                if !prof.obs_only {
+                    log_line(out, &ev, &o, None, None);
+                }
                 continue;
             }
             let target = if on_b { &mut b } else { &mut a };
@@ -378,7 +415,17 @@ pub fn drive<P: PT>(seed: u64, runs: usize, events: usize, prof: &Profile, out: 
             let snap = acct(&target.verif_snapshot());
             let tree = if prof.tree_every > 0 && i % prof.tree_every == 0 { Some(Coll::<P>::tree(target, &ctx)) } else { None };
             max_entries = max_entries.max(target.len());
-            log_line(out, &ev, &o, Some(snap), tree);
+            if !prof.obs_only {
+                log_line(out, &ev, &o, Some(snap), tree);
+            } else if !on_b {
+                let nq = g.queries.len();
+                let queries: Vec<Value> = (0..nq.min(10))
+                    .map(|_| json!({"n": g.queries[rng2.gen_range(0..nq)], "h": "0"}))
+                    .collect();
+                let mut l = obs_event_over(&ctx, &*target, &g.queries, &queries);
+                l["nolen"] = json!(true);
+                writeln!(out, "{}", serde_json::to_string(&l).unwrap()).unwrap();
+            }
             let len_after = target.len() as i64 - Coll::<P>::entries(target).len() as i64;
             if len_after < 0 && len_after != len_before {
                 // finding F4 (TrieViewMut::set on a value-less node): the counter lags behind and the
